@@ -1,6 +1,7 @@
 import WhVerif.Util.Proto
 import WhVerif.Model.C16
 import WhVerif.Model.C16Select
+import WhVerif.Model.C16Largest
 namespace WhVerif.Driver.C16
 open Lean WhVerif.Proto WhVerif.C16
 
@@ -41,5 +42,21 @@ def handle (op : String) (j : Json) : Option Json :=
                         ("outcomes", ofList outJson (selectOutcomes true rs k br)),
                         ("first", outJson (selectAfterSort true rs k br []))])
     | _, _, _ => some badInput
+  else if op == "c16.largest" then
+    -- rows `[read, haplotype (0 = none), phase set, chromosome]` of a haplotag list; `enum` (optional): an enumeration of
+    -- phase set names for `maxOverEnum` on the tagged phase sets of chromosome `chrom`
+    let parseRow (r : Json) : Option TagRow := do
+      match ← natList? r with
+      | [a, b, c, d] => some ⟨a, b, c, d⟩
+      | _ => none
+    match (getList? j "rows").bind (·.mapM parseRow) with
+    | some rows =>
+      let blocks := largestBlocks rows
+      let base := [("blocks", ofList (fun (b : Nat × Nat × Nat) => ofNatList [b.1, b.2.1, b.2.2]) blocks),
+                   ("selected", ofNatList (WhVerif.C07.sortNat (selectedReads rows)))]
+      match getNatList? j "enum", getNat? j "chrom" with
+      | some e, some c => some (Json.mkObj (base ++ [("maxOverEnum", ofOptNat (maxOverEnum e (taggedPs rows c)))]))
+      | _, _ => some (Json.mkObj base)
+    | none => some badInput
   else none
 end WhVerif.Driver.C16
